@@ -37,4 +37,4 @@ try:
         for l in first:
             print('    ', l[:400])
 finally:
-    sh('git checkout -- .', wt)
+    sh('git checkout -- . && git clean -fdq cgsmiles', wt)
